@@ -15,7 +15,7 @@ def run(ctx):
                 "re-serialisation identical); M byte strings -> de on every target; all pairs of targets compared on every request; "
                 "non-trivial = not the empty struct / empty string; distinct by (type, op, input)")
     rng = ctx.rng
-    n, k, r = (30, 2, 8) if ctx.quick else (90, 5, 25)
+    n, k, r = (40, 3, 10) if ctx.quick else (90, 5, 25)
     reqs = E.corpus_requests(sess, "C03")
     for gt in sess.ns.types:
         for v in E.value_cases(rng, gt, n):
